@@ -446,6 +446,28 @@ func Bin(op string, a, b *Term) *Term {
 			}
 		}
 	}
+	// a positive unknown against a constant <= 0
+	if tok, ok := cmpTok[op]; ok {
+		for i, pr := range [][2]*Term{{a, b}, {b, a}} {
+			if pr[0].Op == "positive" && isIntConst(pr[1]) {
+				if v, exact := constant.Int64Val(pr[1].C); exact && v <= 0 {
+					// positive OP v  (i == 0)  or  v OP positive  (i == 1), with positive > 0 >= v
+					var res bool
+					switch tok {
+					case token.LSS, token.LEQ:
+						res = i == 1
+					case token.GTR, token.GEQ:
+						res = i == 0
+					case token.EQL:
+						res = false
+					case token.NEQ:
+						res = true
+					}
+					return &Term{Op: OConst, C: constant.MakeBool(res), Typ: types.Typ[types.Bool]}
+				}
+			}
+		}
+	}
 	// comparisons of two integer constants or two string constants fold
 	if tok, ok := cmpTok[op]; ok && a.Op == OConst && b.Op == OConst && a.C != nil && b.C != nil {
 		if (a.C.Kind() == constant.Int && b.C.Kind() == constant.Int) || (a.C.Kind() == constant.String && b.C.Kind() == constant.String) {
@@ -565,6 +587,23 @@ func Rebuild(t *Term, args []*Term) *Term {
 	case OBin:
 		nt := Bin(t.Str, args[0], args[1])
 		return nt
+	case "concat":
+		r := args[0]
+		for _, a := range args[1:] {
+			r = Concat(r, a)
+		}
+		return r
+	case OIndex:
+		if len(args) == 2 {
+			return indexTerm(args[0], args[1])
+		}
+	case OBuiltin:
+		if t.Str == "len" && len(args) == 1 && args[0].Op == "list" {
+			return Const(constant.MakeInt64(int64(len(args[0].Args))), types.Typ[types.Int])
+		}
+		if (t.Str == "math.Min" || t.Str == "math.Max") && len(args) == 2 {
+			return FMinMax(t.Str == "math.Min", args[0], args[1])
+		}
 	}
 	nt := *t
 	nt.key = ""
